@@ -2769,17 +2769,23 @@ class Renamed(Subconstruct):
     def __getattr__(self, name):
         return getattr(self.subcon, name)
 
+    def _extendpath(self, path):
+        # unnamed wrappers (only docs or a parsed hook) do not appear in the path, and a wrapper that merely
+        # inherited its name from an inner Renamed (like "name" / field * "docs") does not repeat it
+        if not self.name:
+            return path
+        if isinstance(self.subcon, Renamed) and self.subcon.name == self.name:
+            return path
+        return path + " -> %s" % (self.name,)
+
     def _parse(self, stream, context, path):
-        path += " -> %s" % (self.name,)
-        return self.subcon._parsereport(stream, context, path)
+        return self.subcon._parsereport(stream, context, self._extendpath(path))
 
     def _build(self, obj, stream, context, path):
-        path += " -> %s" % (self.name,)
-        return self.subcon._build(obj, stream, context, path)
+        return self.subcon._build(obj, stream, context, self._extendpath(path))
 
     def _sizeof(self, context, path):
-        path += " -> %s" % (self.name,)
-        return self.subcon._sizeof(context, path)
+        return self.subcon._sizeof(context, self._extendpath(path))
 
     def _emitparse(self, code):
         return self.subcon._compileparse(code)
@@ -4352,7 +4358,7 @@ def AlignedStruct(modulus, *subcons, **subconskw):
         b'\xff\x00\x00\x00\xff\xff\x00\x00'
     """
     subcons = list(subcons) + list(k/v for k,v in subconskw.items())
-    return Struct(*[sc.name / Aligned(modulus, sc) for sc in subcons])
+    return Struct(*[Renamed(Aligned(modulus, extractfield(sc)), newname=sc.name, newdocs=sc.docs, newparsed=sc.parsed) for sc in subcons])
 
 
 def BitStruct(*subcons, **subconskw):
